@@ -5,8 +5,11 @@ import (
 	"os"
 	"path/filepath"
 	"regexp"
+	"sort"
 	"strings"
 	"time"
+
+	"github.com/shopspring/decimal"
 )
 
 func init() { runners["C09"] = runC09 }
@@ -29,7 +32,7 @@ func runC09(c *Ctx) {
 	dir := filepath.Join(c.WorkDir, "c09")
 	os.MkdirAll(dir, 0o755)
 	runC09Text(c, dir)
-	runC09Print(c, dir, "print", c.N(1500, 12000), func(r *RNG) JGenOpts {
+	runC09Print(c, dir, "print", c.N(1500, 12000), nil, func(r *RNG) JGenOpts {
 		o := JGenOpts{MaxAccounts: r.Range(2, 7), MaxDays: r.Range(1, 6), Unicode: true, BaseDay: 737000 + r.Intn(1500), SpanDays: Pick(r, []int{0, 3, 30, 200}),
 			ManyDecimals: r.Chance(1, 2), Mutate: r.Chance(1, 12), Accruals: r.Chance(1, 3)}
 		if r.Chance(1, 2) {
@@ -41,9 +44,19 @@ func runC09(c *Ctx) {
 	})
 	// stream `sizes`: the same journals with wide fields (JGenOpts.Sizes): account names of 30-300 runes, commodity names of 8-40
 	// runes, amounts of 8-40 characters, the lengths clustered around powers of two and typical caps; same comparisons and monitors
-	runC09Print(c, dir, "sizes", c.N(250, 3000), func(r *RNG) JGenOpts {
+	runC09Print(c, dir, "sizes", c.N(250, 3000), nil, func(r *RNG) JGenOpts {
 		o := JGenOpts{MaxAccounts: r.Range(2, 6), MaxDays: r.Range(1, 4), Unicode: true, BaseDay: 737000 + r.Intn(1500), SpanDays: Pick(r, []int{0, 3, 30, 200}),
 			ManyDecimals: r.Chance(1, 2), Mutate: r.Chance(1, 12), Accruals: r.Chance(1, 4), Sizes: true, CaseVariants: r.Chance(1, 3)}
+		if r.Chance(1, 3) {
+			o.Prices, o.Valuation, o.DupPrices = true, "CHF", r.Chance(1, 2)
+		}
+		return o
+	})
+	// stream `ties`: journals whose FILE order is not their date order and whose days hold groups of transactions that tie on date,
+	// description and leading postings (c09Ties, c09Shuffle); same comparisons and monitors
+	runC09Print(c, dir, "ties", c.N(300, 4000), c09TiesPost, func(r *RNG) JGenOpts {
+		o := JGenOpts{MaxAccounts: r.Range(2, 6), MaxDays: r.Range(1, 5), Unicode: true, BaseDay: 737000 + r.Intn(1500), SpanDays: Pick(r, []int{0, 3, 30, 200}),
+			ManyDecimals: r.Chance(1, 3), Mutate: r.Chance(1, 16), Accruals: r.Chance(1, 4), CaseVariants: r.Chance(1, 3)}
 		if r.Chance(1, 3) {
 			o.Prices, o.Valuation, o.DupPrices = true, "CHF", r.Chance(1, 2)
 		}
@@ -92,7 +105,8 @@ func c09WidthBucket(n int) string {
 }
 
 // runC09Print: one stream of generated journals through knut print, knut print on the output, knut balance on both; model comparisons and monitors.
-func runC09Print(c *Ctx, dir, stream string, n int, opts func(r *RNG) JGenOpts) {
+// post (optional) rewrites the generated journal before it is rendered and returns further tags.
+func runC09Print(c *Ctx, dir, stream string, n int, post func(r *RNG, j *Journal) []string, opts func(r *RNG) JGenOpts) {
 	var cases []*printCase
 	for i := 0; i < n; i++ {
 		if !c.Want(stream, i) {
@@ -101,6 +115,9 @@ func runC09Print(c *Ctx, dir, stream string, n int, opts func(r *RNG) JGenOpts) 
 		r := c.Rng(stream, i)
 		o := opts(r)
 		j, tags := GenJournal(r, o)
+		if post != nil {
+			tags = append(tags, post(r, j)...)
+		}
 		text, _ := j.Text()
 		f := GenBalFlags(r, j, o.Valuation, BalGenOpts{Valued: true})
 		cases = append(cases, &printCase{Idx: i, J: j, Text: text, F: f, Tags: tags})
@@ -143,7 +160,15 @@ func runC09Print(c *Ctx, dir, stream string, n int, opts func(r *RNG) JGenOpts) 
 				sig = append(sig, t[:4])
 			}
 		}
-		if stream == "sizes" {
+		if stream == "ties" {
+			var ts []string
+			for _, t := range pc.Tags {
+				if strings.HasPrefix(t, "tie") || strings.HasPrefix(t, "file-order") {
+					ts = append(ts, t)
+				}
+			}
+			c.Class(fmt.Sprintf("c09ties/%s/%s", strings.Fields(impl)[0], strings.Join(dedup(ts), "+")))
+		} else if stream == "sizes" {
 			wa, wc, wq := c09Widths(pc.J)
 			c.Class(fmt.Sprintf("c09sizes/%s/acc-%s/com-%s/amt-%s", strings.Fields(impl)[0], c09WidthBucket(wa), c09WidthBucket(wc), c09WidthBucket(wq)))
 		} else {
@@ -346,4 +371,315 @@ func dedup(xs []string) []string {
 		}
 	}
 	return res
+}
+
+// ---------------------------------------------------------------- stream `ties` (added after seed C09-k)
+//
+// knut print sorts the days by date and the transactions of a day by transaction.Compare; the printed text registers accounts,
+// commodities and days in another order than the input file did whenever the file is not in print order. Anything in that
+// comparison (or elsewhere in print) that depends on the order of first mention shows only when (a) the file order differs from
+// the print order and (b) some transactions tie up to the field in question. c09Ties adds such groups, c09Shuffle reorders the file.
+
+func c09TiesPost(r *RNG, j *Journal) []string {
+	tags := c09Ties(r, j)
+	return append(tags, c09Shuffle(r, j)...)
+}
+
+func c09AccType(a string) string {
+	if i := strings.IndexByte(a, ':'); i >= 0 {
+		return a[:i]
+	}
+	return a
+}
+
+var c09TieSegs = []string{"Depot", "Savings", "Alpha", "Zeta", "Mid", "B2", "Övrig", "K", "Aa", "Zz", "Pool", "N1", "N2", "Тест", "Joint"}
+
+// c09Ties adds 1-2 groups of 2-4 transactions on one day with the description and the leading bookings of a transaction of the
+// journal, which differ only in one later booking (or the only one): in its credit or debit account (another account of the same
+// type: a fresh one, opened on that day or 1-400 days earlier, or one the journal has open), in its commodity or in its quantity.
+// A compensating transaction (other description) on the same day takes the net effect on the journal's own accounts back, so
+// assertions and closes of the journal still hold; sometimes a later transaction between the fresh accounts follows.
+func c09Ties(r *RNG, j *Journal) []string {
+	var tags []string
+	known := map[string]bool{}
+	closed := map[string]bool{}
+	opened := map[string]int{}
+	var coms []string
+	var txs []int
+	for i, d := range j.Dirs {
+		switch d.Kind {
+		case 'o':
+			known[d.Account] = true
+			if z, ok := opened[d.Account]; !ok || d.Date < z {
+				opened[d.Account] = d.Date
+			}
+		case 'c':
+			closed[d.Account] = true
+		case 'a':
+			for _, b := range d.Balances {
+				known[b.Account] = true
+			}
+		case 't':
+			if len(d.Bookings) > 0 {
+				txs = append(txs, i)
+			}
+			for _, b := range d.Bookings {
+				known[b.Credit], known[b.Debit] = true, true
+				if !contains(coms, b.Com) {
+					coms = append(coms, b.Com)
+				}
+			}
+		}
+	}
+	if len(txs) == 0 {
+		return nil
+	}
+	own := map[string]bool{}
+	for a := range known {
+		own[a] = true
+	}
+	fresh := func(typ string, date int) string {
+		for {
+			a := typ + ":" + Pick(r, c09TieSegs)
+			if r.Chance(1, 2) {
+				a += ":" + Pick(r, c09TieSegs)
+			}
+			if known[a] {
+				if r.Chance(1, 4) {
+					a += fmt.Sprintf("%d", r.Intn(100))
+				}
+				if known[a] {
+					continue
+				}
+			}
+			known[a] = true
+			od := date - Pick(r, []int{0, 0, r.Range(1, 5), r.Range(6, 400)})
+			j.Dirs = append(j.Dirs, JDir{Kind: 'o', Date: od, Account: a})
+			return a
+		}
+	}
+	for g, ng := 0, r.Range(1, 2); g < ng; g++ {
+		base := j.Dirs[Pick(r, txs)]
+		date := base.Date
+		lead := append([]JBook(nil), base.Bookings...)
+		var tmpl JBook
+		switch {
+		case len(lead) > 1 && r.Chance(1, 2): // the last booking varies, the base is a member of the group
+			tmpl, lead = lead[len(lead)-1], lead[:len(lead)-1]
+			tags = append(tags, "tie-pos:last")
+		case r.Chance(1, 4): // the first booking varies
+			tmpl, lead = lead[0], nil
+			tags = append(tags, "tie-pos:first")
+		default: // a further booking after all of the base's
+			tmpl = Pick(r, lead)
+			tags = append(tags, "tie-pos:appended")
+		}
+		n := r.Range(2, 4)
+		if base.Accrual == nil && len(lead) < len(base.Bookings) {
+			n-- // the base itself is a member of the group
+		}
+		kind := Pick(r, []string{"credit", "credit", "credit", "debit", "debit", "debit", "commodity", "quantity"})
+		if kind == "commodity" && len(coms) < 2 {
+			kind = "debit"
+		}
+		tags = append(tags, "tie:"+kind, fmt.Sprintf("tie-n:%d", n))
+		var made []string
+		variantAcc := func(orig, other string) string {
+			typ := c09AccType(orig)
+			if r.Chance(1, 4) { // an account the journal has open on that day
+				var cand []string
+				for a := range own {
+					if z, ok := opened[a]; ok && z <= date && !closed[a] && a != orig && a != other && c09AccType(a) == typ {
+						cand = append(cand, a)
+					}
+				}
+				if len(cand) > 0 {
+					sort.Strings(cand)
+					return Pick(r, cand)
+				}
+			}
+			a := fresh(typ, date)
+			made = append(made, a)
+			return a
+		}
+		type key = [2]string
+		eff := map[key]decimal.Decimal{}
+		var effKeys []key
+		note := func(bs []JBook) {
+			for _, b := range bs {
+				q, err := decimal.NewFromString(b.Qty)
+				if err != nil {
+					continue
+				}
+				for side, a := range []string{b.Credit, b.Debit} {
+					if !own[a] {
+						continue
+					}
+					k := key{a, b.Com}
+					if _, ok := eff[k]; !ok {
+						effKeys = append(effKeys, k)
+					}
+					if side == 0 {
+						eff[k] = eff[k].Sub(q)
+					} else {
+						eff[k] = eff[k].Add(q)
+					}
+				}
+			}
+		}
+		for k := 0; k < n; k++ {
+			v := tmpl
+			switch kind {
+			case "credit":
+				v.Credit = variantAcc(tmpl.Credit, tmpl.Debit)
+			case "debit":
+				v.Debit = variantAcc(tmpl.Debit, tmpl.Credit)
+			case "commodity":
+				v.Com = Pick(r, coms)
+			case "quantity":
+				v.Qty = fmt.Sprintf("%d.%02d", r.Intn(300), r.Intn(100))
+			}
+			t := JDir{Kind: 't', Date: date, Desc: base.Desc, Targets: base.Targets}
+			t.Bookings = append(append([]JBook(nil), lead...), v)
+			note(t.Bookings)
+			j.Dirs = append(j.Dirs, t)
+		}
+		// take the net effect on the journal's own accounts back (same day, other description)
+		var comp []JBook
+		sink := ""
+		for _, k := range effKeys {
+			if q := eff[k]; !q.IsZero() {
+				if sink == "" {
+					sink = fresh("Equity", date)
+					made = append(made, sink)
+				}
+				comp = append(comp, JBook{Credit: sink, Debit: k[0], Qty: q.Neg().String(), Com: k[1]})
+			}
+		}
+		if len(comp) > 0 {
+			j.Dirs = append(j.Dirs, JDir{Kind: 't', Date: date, Desc: base.Desc + " (reversal)", Bookings: comp})
+		}
+		if len(made) >= 2 && r.Chance(1, 2) { // the fresh accounts are used again on that day or later
+			t := JDir{Kind: 't', Date: date + Pick(r, []int{0, 1, 7, 40}), Desc: Pick(r, []string{base.Desc, "later", "x"})}
+			for k := r.Range(1, 2); k > 0; k-- {
+				a, b := Pick(r, made), Pick(r, made)
+				if a != b {
+					t.Bookings = append(t.Bookings, JBook{Credit: a, Debit: b, Qty: fmt.Sprintf("%d", r.Range(1, 90)), Com: Pick(r, coms)})
+				}
+			}
+			if len(t.Bookings) > 0 {
+				j.Dirs = append(j.Dirs, t)
+				tags = append(tags, "tie-later-use")
+			}
+		}
+	}
+	return tags
+}
+
+// c09Shuffle reorders the directives in the FILE without changing the journal: the relative order of a day's directives is kept
+// (except, half of the time, that of a day's opens among themselves), the days are interleaved / reversed / permuted, or all opens
+// are listed first in a random order.
+func c09Shuffle(r *RNG, j *Journal) []string {
+	mode := r.Intn(6)
+	if mode == 0 {
+		return []string{"file-order:appended"} // as generated, the added directives at the end of the file
+	}
+	byDay := map[int][]JDir{}
+	var days []int
+	for _, d := range j.Dirs {
+		if _, ok := byDay[d.Date]; !ok {
+			days = append(days, d.Date)
+		}
+		byDay[d.Date] = append(byDay[d.Date], d)
+	}
+	sort.Ints(days)
+	tags := []string{}
+	perm := func(n int, swap func(i, k int)) {
+		for i := n - 1; i > 0; i-- {
+			swap(i, r.Intn(i+1))
+		}
+	}
+	if r.Chance(1, 2) {
+		for _, z := range days {
+			ds := byDay[z]
+			var at []int
+			for i, d := range ds {
+				if d.Kind == 'o' {
+					at = append(at, i)
+				}
+			}
+			perm(len(at), func(i, k int) { ds[at[i]], ds[at[k]] = ds[at[k]], ds[at[i]] })
+		}
+		tags = append(tags, "file-order:opens-permuted")
+	}
+	var out []JDir
+	interleave := func(qs [][]JDir) {
+		for {
+			var live []int
+			for i, q := range qs {
+				if len(q) > 0 {
+					live = append(live, i)
+				}
+			}
+			if len(live) == 0 {
+				return
+			}
+			i := Pick(r, live)
+			out, qs[i] = append(out, qs[i][0]), qs[i][1:]
+		}
+	}
+	queues := func() [][]JDir {
+		var qs [][]JDir
+		for _, z := range days {
+			qs = append(qs, byDay[z])
+		}
+		return qs
+	}
+	switch mode {
+	case 1:
+		for _, z := range days {
+			out = append(out, byDay[z]...)
+		}
+		tags = append(tags, "file-order:by-date")
+	case 2:
+		perm(len(days), func(i, k int) { days[i], days[k] = days[k], days[i] })
+		for _, z := range days {
+			out = append(out, byDay[z]...)
+		}
+		tags = append(tags, "file-order:days-permuted")
+	case 3:
+		interleave(queues())
+		tags = append(tags, "file-order:interleaved")
+	case 4:
+		var opens []JDir
+		for _, z := range days {
+			var rest []JDir
+			for _, d := range byDay[z] {
+				if d.Kind == 'o' {
+					opens = append(opens, d)
+				} else {
+					rest = append(rest, d)
+				}
+			}
+			byDay[z] = rest
+		}
+		// (an account opened, closed and opened again keeps the order of its own opens irrelevant: they are equal directives up to the date)
+		perm(len(opens), func(i, k int) { opens[i], opens[k] = opens[k], opens[i] })
+		out = append(out, opens...)
+		if r.Bool() {
+			interleave(queues())
+		} else {
+			for _, z := range days {
+				out = append(out, byDay[z]...)
+			}
+		}
+		tags = append(tags, "file-order:opens-first")
+	case 5:
+		for i := len(days) - 1; i >= 0; i-- {
+			out = append(out, byDay[days[i]]...)
+		}
+		tags = append(tags, "file-order:days-reversed")
+	}
+	j.Dirs = out
+	return tags
 }
